@@ -38,11 +38,8 @@ META = {
 }
 SPEC_DIR = "pageresource"
 TRACE_SPEC = ("Trace_PageResource.tla", "Trace_PageResource.cfg")
-# allocation churn (collections triggered by allocation: reserve / poll / clear_request / block):
-# every collecting plan but Compressor, whose compaction panics on this workload (reported to the
-# coordinator; it is not a page-resource matter: CompressorSpace::update_references reads a header
-# word as a reference)
-CHURN_PLANS = [p for p in sc.PLANS if p not in ("NoGC", "Compressor")]
+# allocation churn: collections triggered by allocation (reserve / poll / clear_request / block)
+CHURN_PLANS = [p for p in sc.PLANS if p != "NoGC"]
 MUTANTS = ["double_grant", "beyond_extent", "release_not_subtracting", "release_subtracts_twice",
            "commit_without_reserve", "clear_request_dropped"]
 
@@ -52,7 +49,7 @@ def matrix(tier):
     if tier == "quick":
         for p in sc.PLANS:
             runs.append(sc.SRun(p, programs=5, ops=140, sems="0,0,0,0,1,2,2,6"))
-        for p in ["SemiSpace", "Immix", "MarkSweep", "PageProtect", "GenCopy"]:
+        for p in ["SemiSpace", "Immix", "MarkSweep", "PageProtect", "GenCopy", "MarkCompact"]:
             runs.append(sc.SRun(p, layout="compressed", name="c", programs=4, ops=120,
                                 sems="0,0,0,0,1,2,2,6", seed_off=1))
         for p in ["SemiSpace", "Immix", "MarkSweep", "GenImmix", "MarkCompact", "PageProtect"]:
